@@ -7,6 +7,13 @@ var serverStubs = map[string]string{
 	"(*net/http.Request).Context":                        "verifStubReqContext",
 	"net/netip.ParseAddrPort":                            "verifStubParseAddrPort",
 	"(net/netip.AddrPort).Addr":                          "verifStubAddrOf",
+	"(net/netip.Addr).IsLoopback":                        "verifStubAddrIsLoopback",
+	"(net/netip.Addr).IsPrivate":                         "verifStubAddrIsPrivate",
+	"net/netip.ParseAddr":                                "verifStubParseAddr",
+	"net/netip.AddrPortFrom":                             "verifStubAddrPortFrom",
+	"(net/netip.AddrPort).Port":                          "verifStubAddrPortPort",
+	"(net/netip.AddrPort).String":                        "verifStubAddrPortString",
+	"(net/netip.Addr).String":                            "verifStubAddrString",
 	"tailscale.com/tailcfg.UnmarshalCapJSON":             "verifStubUnmarshalCap",
 	"(*github.com/tailscale/setec/db.DB).List":           "verifDBList",
 	"(*github.com/tailscale/setec/db.DB).Info":           "verifDBInfoM",
